@@ -4,11 +4,12 @@
        run, the log gets consecutive evaluation numbers with one point number and one x;
    (2) every reachable accounting state (any sequence of evaluations, any requested counts, any maxfun): the log is
        numbered 1..nf without gaps, point numbers 1..nx without gaps, equal point number => identical x;
-   (3) tables regenerated from solver.py/controller.py: no other write to the counters, the x0 sampling loop has the
-       same budget test, restarts are admitted only while nf < maxfun, results report the machine's counters. *)
+   (3) the x0 sampling block of solve_main (regenerated counter slice) refines the same accounting step;
+   (4) tables regenerated from solver.py/controller.py: no other write to the counters, restarts are admitted only while
+       nf < maxfun (so the block's hypothesis nf_so_far < maxfun holds), results report the machine's counters. *)
 From Coq Require Import ZArith List Bool String Lia.
-Require Import DV.Base.Prelude DV.Spec.Schema DV.Lib.MSpec DV.Lib.CSpec DV.Lib.MEval DV.Lib.Tables.
-From G Require Import Gen_util Gen_model Gen_controller Gen_tables.
+Require Import DV.Base.Prelude DV.Spec.Schema DV.Lib.MSpec DV.Lib.CSpec DV.Lib.MEval DV.Lib.MX0 DV.Lib.Tables.
+From G Require Import Gen_util Gen_model Gen_controller Gen_solver Gen_tables.
 From P Require Import Char_model Char_controller.
 Import ListNotations.
 Open Scope Z_scope.
@@ -31,6 +32,24 @@ Theorem C02_evaluate_objective_refines_accounting : forall st x ns orc log st' o
 Proof.
   intros st x ns orc log st' orc' log' rvecs objs run ex H1 H2 H. rewrite evaluate_objective_eq in H. rewrite remove_scaling_eq.
   exact (evaluate_objective_refines _ _ _ _ _ _ _ _ _ _ _ _ H1 H2 H).
+Qed.
+(* the x0 sampling block at the start of solve_main -- the only objective calls not made through evaluate_objective --
+   behaves exactly like one evaluate_objective call on a fresh point.  py_solver_x0_block is the counter slice of that
+   block regenerated from solver.py; it equals the reference model of DV.Lib.MX0, whose accounting theorem transfers. *)
+Lemma x0_block_eq : forall nf0 nx0 mf ns x0 sc orc log, py_solver_x0_block nf0 nx0 mf ns x0 sc orc log = sx0_block nf0 nx0 mf ns x0 sc orc log.
+Proof.
+  intros; first [reflexivity | unfold py_solver_x0_block, sx0_block; rewrite ?remove_scaling_eq; reflexivity ].
+Qed.
+Theorem C02_x0_block_refines_accounting : forall nf0 nx0 mf ns x0 sc orc log orc' log' nf nx run ex,
+  1 <= ns -> nf0 < mf ->
+  py_solver_x0_block nf0 nx0 mf ns x0 sc orc log = Ok (orc', log', (nf, nx, run, ex)) ->
+  {| a_nf := nf; a_nx := nx; a_maxfun := mf; a_log := log' |} =
+    acct_eval {| a_nf := nf0; a_nx := nx0; a_maxfun := mf; a_log := log |} (py_util_remove_scaling x0 sc) ns /\
+  run = Z.min ns (mf - nf0) /\ (run < ns -> ex <> None) /\ (run = ns -> ex = None).
+Proof.
+  intros nf0 nx0 mf ns x0 sc orc log orc' log' nf nx run ex H1 H2 H. rewrite x0_block_eq in H. rewrite remove_scaling_eq.
+  split; [exact (x0_block_refines _ _ _ _ _ _ _ _ _ _ _ _ _ _ H1 H2 H)|].
+  destruct (x0_block_spec _ _ _ _ _ _ _ _ _ _ _ _ _ _ H1 H2 H) as (E & _ & _ & _ & _ & E1 & E2). auto.
 Qed.
 (* every reachable accounting state *)
 Theorem C02_log_wellformed_forever : forall (calls : list (vec * Z)) a, acct_ok a -> Forall (fun c => 0 <= snd c) calls ->
@@ -96,6 +115,7 @@ Theorem C02_requested_counts_positive :
 Proof. vm_compute. reflexivity. Qed.
 
 Print Assumptions C02_evaluate_objective_accounting.
+Print Assumptions C02_x0_block_refines_accounting.
 Print Assumptions C02_log_wellformed_forever.
 Print Assumptions C02_budget_and_counts.
 Print Assumptions C02_no_other_counter_write.
